@@ -4,7 +4,7 @@
 From Coq Require Import List Ascii String NArith Bool Lia.
 From Galaxy.Base Require Import Strs.
 From Galaxy.Model Require Import Nets Netfilter Policy PolicySpec.
-From Galaxy.Proofs Require Import NetfilterP PolicyPodsP.
+From Galaxy.Proofs Require Import NetfilterP PolicySetsP PolicyPodsP.
 Import ListNotations.
 Local Open Scope list_scope.
 
@@ -489,4 +489,298 @@ Proof.
       unfold stale, stale_policy_chains in Hx. apply filter_In in Hx. destruct Hx as [_ Hx].
       apply andb_true_iff in Hx. destruct Hx as [_ Hx]. apply negb_true_iff in Hx. apply mem_false in Hx.
       apply Hx. rewrite E. apply (in_map (fun cp => policy_chain H (cp_np cp))). exact Hcp.
+Qed.
+
+(** ------------------------------------------------------------------ a whole Run on a fresh node *)
+(** no GLX-owned chain or set (hence, by consistency, no rule that names one) *)
+Definition fresh (k : kernel) : bool :=
+  kernel_consistent k &&
+  forallb (fun c => negb (owned_chain c)) (chain_names (k_filter k)) &&
+  forallb (fun n => negb (owned_set n)) (set_names (k_sets k)).
+
+(** the name hash does not collide on the names in play: set names, policy chains, local pods' chains *)
+Definition names_distinct (H : str -> str) (host : str) (c : cluster) : bool :=
+  strs_nodup (map cs_name (all_sets (compile H c))) &&
+  strs_nodup (map (policy_chain H) (c_pols c)) &&
+  strs_nodup (map (pod_chain H) (local_pods host c)).
+
+Lemma existsb_false {A} (f : A -> bool) l : existsb f l = false <-> forall x, In x l -> f x = false.
+Proof.
+  induction l as [|a l IH]; simpl.
+  - split; [intros _ x []|reflexivity].
+  - rewrite orb_false_iff, IH. split.
+    + intros [H1 H2] x [E|Hx]; [subst; exact H1|apply H2; exact Hx].
+    + intros Hf. split; [apply Hf; left; reflexivity|intros x Hx; apply Hf; right; exact Hx].
+Qed.
+
+Lemma fold_left_id {A B} (f : A -> B -> A) l a : (forall a x, In x l -> f a x = a) -> fold_left f l a = a.
+Proof.
+  induction l as [|b l IH]; intros Hf; [reflexivity|]. simpl. rewrite Hf by (left; reflexivity).
+  apply IH. intros a' x Hx. apply Hf. right. exact Hx.
+Qed.
+
+Lemma conflict_free_agree H c : conflicting_flags H c = false ->
+  forall cs, In cs (all_sets (compile H c)) -> flags_agree (cs_elems cs) (cs_elems cs).
+Proof.
+  unfold conflicting_flags. intros Hc cs Hcs e o He Ho Ek.
+  rewrite existsb_false in Hc. specialize (Hc cs Hcs). rewrite existsb_false in Hc. specialize (Hc e He).
+  rewrite existsb_false in Hc. specialize (Hc o Ho). rewrite Ek, str_eqb_refl in Hc. simpl in Hc.
+  apply negb_false_iff in Hc. apply eqb_prop in Hc. exact Hc.
+Qed.
+
+Section Fresh.
+Variable H : str -> str.
+Variable host : str.
+
+Lemma fresh_parts k : fresh k = true ->
+  NoDup (map fst (k_filter k)) /\ NoDup (set_names (k_sets k)) /\
+  has_chain (L "FORWARD") (k_filter k) = true /\ has_chain (L "INPUT") (k_filter k) = true /\
+  has_chain (L "OUTPUT") (k_filter k) = true /\
+  (forall x, has_chain x (k_filter k) = true -> has_prefix glx x = false) /\
+  (forall n, In n (set_names (k_sets k)) -> has_prefix glx n = false).
+Proof.
+  unfold fresh, kernel_consistent. rewrite !andb_true_iff.
+  intros [[[[[[[[[[N1 N2] F1] F2] F3] _] _] _] _] C1] C2].
+  apply strs_nodup_NoDup in N1. apply strs_nodup_NoDup in N2.
+  repeat split; try assumption.
+  - intros x Hx. apply has_chain_In in Hx. rewrite forallb_forall in C1. apply negb_true_iff. apply C1. exact Hx.
+  - intros n Hn. rewrite forallb_forall in C2. apply negb_true_iff. apply C2. exact Hn.
+Qed.
+
+(** syncRules on a fresh node: the sets are exactly the compiled ones, the policy chains hold exactly their
+    rules, nothing else is touched, nothing is refused *)
+Lemma sync_rules_fresh c k :
+  fresh k = true -> names_distinct H host c = true -> conflicting_flags H c = false ->
+  let pols := compile H c in
+  exists t1 s1, sync_rules H pols k = (mkK t1 s1, true) /\
+    (forall cs, In cs (all_sets pols) -> exists x, slookup (cs_name cs) s1 = Some x /\ cset_eqv cs x = true) /\
+    (forall n, ~ In n (map cs_name (all_sets pols)) -> slookup n s1 = slookup n (k_sets k)) /\
+    (forall n, In n (set_names (k_sets k)) -> In n (set_names s1)) /\
+    (forall n, In n (set_names s1) -> In n (set_names (k_sets k)) \/ In n (map cs_name (all_sets pols))) /\
+    (forall x, tlookup x t1 = if mem x (map (chain_of H) pols)
+                              then Some (appends_for x (policy_aps H pols)) else tlookup x (k_filter k)) /\
+    NoDup (map fst t1).
+Proof.
+  intros Hf Hd Hc pols. destruct (fresh_parts k Hf) as [N1 [N2 [F1 [F2 [F3 [G1 G2]]]]]].
+  unfold names_distinct in Hd. rewrite !andb_true_iff in Hd. destruct Hd as [[D1 D2] D3].
+  apply strs_nodup_NoDup in D1.
+  pose proof (compile_names_glx H c) as Hg. fold pols in Hg.
+  assert (forall cs, In cs (all_sets pols) -> slookup (cs_name cs) (k_sets k) = None) as Hnone.
+  { intros cs Hcs. destruct (slookup (cs_name cs) (k_sets k)) eqn:E; [|reflexivity].
+    assert (In (cs_name cs) (set_names (k_sets k))) as Hin by (apply slookup_In_names; congruence).
+    apply G2 in Hin. rewrite (Hg cs Hcs) in Hin. discriminate. }
+  unfold sync_rules. destruct (sync_sets (all_sets pols) (k_sets k)) as [s1 ok] eqn:Es.
+  destruct (sync_sets_exact_l _ _ _ _ D1
+              ltac:(intros cs Hcs; split; [apply (conflict_free_agree H c Hc cs Hcs)|rewrite (Hnone cs Hcs); exact I]) Es)
+    as [S1 [S2 [S3 [S4 [S5 S6]]]]].
+  assert (ok = true) as Hok. { apply S6. intros cs Hcs. rewrite (Hnone cs Hcs). exact I. }
+  subst ok. cbn [negb].
+  assert (stale_policy_chains H pols (k_filter k) = []) as Hst.
+  { unfold stale_policy_chains. apply forallb_filter_nil. intros x Hx.
+    apply has_chain_In in Hx. apply G1 in Hx. rewrite (glx_false_plcy _ Hx). reflexivity. }
+  rewrite Hst.
+  destruct (policy_head_effect H pols [] (set_names s1) (k_filter k) Hg) as [t1 [A [Lk P]]].
+  { intros cs Hcs. destruct (S1 eq_refl cs Hcs) as [x [Hx _]]. apply slookup_In_names. congruence. }
+  { intros x []. }
+  unfold policy_batch. cbn [map]. rewrite app_nil_r. rewrite (restore_some _ _ _ _ A).
+  rewrite fold_left_id.
+  2:{ intros a n Hn. apply G2 in Hn. unfold glx in Hn. unfold glx. rewrite Hn. reflexivity. }
+  exists t1, s1. split; [reflexivity|]. split; [|split; [exact S2|split; [exact S3|split; [exact S4|split]]]].
+  - intros cs Hcs. destruct (S1 eq_refl cs Hcs) as [x [Hx [Hy _]]]. exists x. split; assumption.
+  - intros x. rewrite Lk, app_nil_r. reflexivity.
+  - destruct P as [_ P]. apply P. exact N1.
+Qed.
+
+Lemma compile_chain_names c : map (chain_of H) (compile H c) = map (policy_chain H) (c_pols c).
+Proof. unfold compile. rewrite map_map. reflexivity. Qed.
+
+Lemma pod_not_plcy x : has_prefix pod_prefix x = true -> has_prefix plcy_prefix x = false.
+Proof.
+  intros E. destruct (has_prefix plcy_prefix x) eqn:E'; [|reflexivity]. apply plcy_not_pod in E'. congruence.
+Qed.
+
+Theorem run_fresh c k m :
+  fresh k = true -> names_distinct H host c = true -> conflicting_flags H c = false ->
+  exists m' k', run H host c (m, k) = (m', k', true) /\ glx_exact H host c k' = true /\ foreign_same k k' = true.
+Proof.
+  intros Hf Hd Hc. destruct (sync_rules_fresh c k Hf Hd Hc) as [t1 [s1 [R [S1 [S2 [S3 [S4 [Lk N1']]]]]]]].
+  destruct (fresh_parts k Hf) as [N1 [N2 [F1 [F2 [F3 [G1 G2]]]]]].
+  unfold names_distinct in Hd. rewrite !andb_true_iff in Hd. destruct Hd as [[D1 D2] D3].
+  apply strs_nodup_NoDup in D2. apply strs_nodup_NoDup in D3.
+  set (pols := compile H c) in *. set (t0 := k_filter k) in *. set (s0 := k_sets k) in *.
+  set (ps := local_pods host c) in *.
+  pose proof (compile_names_glx H c) as Hg. fold pols in Hg.
+  assert (forall x, has_prefix plcy_prefix x = false -> tlookup x t1 = tlookup x t0) as Lk0.
+  { intros x Hx. rewrite Lk. destruct (mem x (map (chain_of H) pols)) eqn:Em; [|reflexivity].
+    apply mem_chain_of_plcy in Em. congruence. }
+  assert (forall x, has_prefix glx x = true -> has_chain x t0 = false) as G1'.
+  { intros x Hx. destruct (has_chain x t0) eqn:E; [|reflexivity]. apply G1 in E. congruence. }
+  assert (forall cp, In cp pols -> tlookup (chain_of H cp) t1 = Some (policy_chain_rules cp)) as Lkp.
+  { intros cp Hcp. rewrite Lk.
+    assert (mem (chain_of H cp) (map (chain_of H) pols) = true) as Hm by (apply mem_In; apply in_map; exact Hcp).
+    rewrite Hm. f_equal. apply appends_for_policy; [|exact Hcp].
+    unfold pols. rewrite compile_chain_names. exact D2. }
+  destruct (sync_pods_fresh_l H pols ps s1 t1 D3 N1') as [t' [Fold [N' [P3 [P4 [P5 [P6 [P7 P8]]]]]]]].
+  { unfold has_chain. rewrite Lk0 by reflexivity. exact F1. }
+  { unfold has_chain. rewrite Lk0 by reflexivity. exact F2. }
+  { unfold has_chain. rewrite Lk0 by reflexivity. exact F3. }
+  { intros x Hx. unfold has_chain. rewrite Lk0 by (apply pod_not_plcy; exact Hx).
+    apply G1'. apply pod_is_glx. exact Hx. }
+  { unfold has_chain. rewrite Lk0 by reflexivity. apply G1'. reflexivity. }
+  { unfold has_chain. rewrite Lk0 by reflexivity. apply G1'. reflexivity. }
+  { intros cp Hcp. unfold has_chain. change (policy_chain H (cp_np cp)) with (chain_of H cp).
+    rewrite (Lkp cp Hcp). reflexivity. }
+  assert (forall x, has_prefix glx x = false -> hook_chain x = false -> tlookup x t' = tlookup x t0) as Same.
+  { intros x Hx Hh. destruct (glx_false_names x Hx) as [Hi He].
+    rewrite P8; [|apply glx_false_pod; exact Hx|exact Hi|exact He|exact Hh].
+    apply Lk0. apply glx_false_plcy. exact Hx. }
+  exists (recompile H c m), (mkK t' s1). split; [|split].
+  - unfold run. cbn [fst snd]. change (m_pols (recompile H c m)) with pols. rewrite R.
+    rewrite sync_pods_unfold. fold ps. rewrite Fold. reflexivity.
+  - unfold glx_exact. cbn [k_filter k_sets]. fold pols. fold ps.
+    rewrite !andb_true_iff. repeat split.
+    + apply forallb_forall. intros cs Hcs. destruct (S1 cs Hcs) as [x [Hx Hy]]. rewrite Hx. exact Hy.
+    + apply forallb_forall. intros [n x] Hin. cbn [fst].
+      assert (In n (set_names s1)) as Hn by (apply (in_map fst) in Hin; exact Hin).
+      destruct (S4 n Hn) as [Hn'|Hn'].
+      * apply G2 in Hn'. unfold owned_set. rewrite Hn'. reflexivity.
+      * apply mem_In in Hn'. rewrite Hn'. apply orb_true_r.
+    + apply forallb_forall. intros cp Hcp.
+      pose proof (chain_of_plcy H cp) as Hp. destruct (plcy_not_hook _ Hp) as [Hi [He [Hh _]]].
+      change (policy_chain H (cp_np cp)) with (chain_of H cp).
+      rewrite P8; [|apply plcy_not_pod; exact Hp|exact Hi|exact He|exact Hh].
+      rewrite (Lkp cp Hcp). apply rules_eqb_refl.
+    + apply forallb_forall. intros n Hn. destruct (has_prefix plcy_prefix n) eqn:Hp; [|reflexivity]. cbn [negb orb].
+      destruct (plcy_not_hook _ Hp) as [Hi [He [Hh _]]].
+      change (mem n (map (chain_of H) pols) = true).
+      destruct (mem n (map (chain_of H) pols)) eqn:Em; [reflexivity|]. exfalso.
+      apply has_chain_In in Hn. unfold has_chain in Hn.
+      rewrite P8 in Hn; [|apply plcy_not_pod; exact Hp|exact Hi|exact He|exact Hh].
+      rewrite Lk, Em in Hn. fold (has_chain n t0) in Hn. apply G1 in Hn. apply glx_false_plcy in Hn. congruence.
+    + apply forallb_forall. intros p Hp. destruct (want_pod_chain pols p) eqn:W; [|reflexivity]. cbn [negb orb].
+      rewrite (P3 p Hp W). apply rules_perm_refl.
+    + apply forallb_forall. intros n Hn. destruct (has_prefix pod_prefix n) eqn:Hp; [|reflexivity]. cbn [negb orb].
+      apply has_chain_In in Hn. destruct (P4 n Hp Hn) as [p [Hin [W E]]].
+      apply existsb_exists. exists p. split; [exact Hin|]. change (want_pod_chain pols p) with (wants pols p).
+      rewrite W, E, str_eqb_refl. reflexivity.
+    + rewrite P5. change (want_in_hooks H host pols c) with (in_hooks_of H pols ps).
+      destruct (existsb (wants pols) ps) eqn:Ex; [apply rules_perm_refl|].
+      rewrite in_hooks_of_nowant by exact Ex. reflexivity.
+    + rewrite P6. change (want_eg_hooks H host pols c) with (eg_hooks_of H pols ps).
+      destruct (existsb (wants pols) ps) eqn:Ex; [apply rules_perm_refl|].
+      rewrite eg_hooks_of_nowant by exact Ex. reflexivity.
+  - unfold foreign_same. cbn [k_filter k_sets]. fold t0 s0. rewrite !andb_true_iff. repeat split.
+    + apply forallb_forall. intros [n rs] Hin. cbn [fst snd].
+      assert (tlookup n t0 = Some rs) as Hl by (apply In_tlookup; assumption).
+      assert (has_prefix glx n = false) as Hn by (apply G1; eapply has_chain_some; exact Hl).
+      unfold owned_chain. rewrite Hn. cbn [orb]. destruct (hook_chain n) eqn:Hh.
+      * destruct (P7 n Hh) as [rs0 [rs' [L1 [L2 E]]]]. rewrite L2.
+        rewrite Lk0 in L1 by (apply glx_false_plcy; exact Hn). rewrite Hl in L1. inversion L1. subst rs0.
+        rewrite E. apply rules_eqb_refl.
+      * rewrite (Same n Hn Hh), Hl. apply rules_eqb_refl.
+    + apply forallb_forall. intros [n rs] Hin. cbn [fst]. unfold owned_chain.
+      destruct (has_prefix glx n) eqn:Hn; [reflexivity|]. cbn [orb]. destruct (hook_chain n) eqn:Hh.
+      * destruct (P7 n Hh) as [rs0 [rs' [L1 [L2 E]]]].
+        rewrite Lk0 in L1 by (apply glx_false_plcy; exact Hn). eapply has_chain_some. exact L1.
+      * apply (in_map fst) in Hin. cbn [fst] in Hin. apply has_chain_In in Hin. unfold has_chain in *.
+        rewrite (Same n Hn Hh) in Hin. exact Hin.
+    + apply forallb_forall. intros [n x] Hin. cbn [fst snd].
+      assert (In n (set_names s0)) as Hn by (apply (in_map fst) in Hin; exact Hin).
+      apply G2 in Hn. unfold owned_set. rewrite Hn. cbn [orb].
+      rewrite S2.
+      * rewrite (In_slookup n x s0 N2 Hin). rewrite settype_eqb_refl, elems_eqv_refl. reflexivity.
+      * intros Hm. apply in_map_iff in Hm. destruct Hm as [cs [E Hcs]]. apply Hg in Hcs. congruence.
+    + apply forallb_forall. intros [n x] Hin. cbn [fst].
+      assert (In n (set_names s1)) as Hn by (apply (in_map fst) in Hin; exact Hin).
+      destruct (S4 n Hn) as [Hn'|Hn'].
+      * apply slookup_In_names in Hn'. destruct (slookup n s0); [apply orb_true_r|congruence].
+      * apply in_map_iff in Hn'. destruct Hn' as [cs [E Hcs]]. apply Hg in Hcs. unfold owned_set. rewrite <- E, Hcs. reflexivity.
+Qed.
+End Fresh.
+
+(** ------------------------------------------------------------------ the hypotheses are satisfiable *)
+(** a node with foreign chains / rules / sets is fresh; the corpus cluster (two namespaces, three pods, a policy
+    with a namespaceSelector peer and an ipBlock with an except) meets the hypotheses of run_fresh under the
+    identity hash and compiles to three sets *)
+Lemma c15_example_fresh_l :
+  fresh w_k0 = true /\ names_distinct idH w_host w5_c0 = true /\ conflicting_flags idH w5_c0 = false /\
+  List.length (all_sets (compile idH w5_c0)) = 3%nat /\ List.length (k_filter w_k0) = 4%nat.
+Proof. repeat split; vm_compute; reflexivity. Qed.
+
+(** an existing set with one entry to keep, one to delete, and one wanted entry to add meets set_pre *)
+Definition ex_cset : cset := mkCSet (L "GLX-ip-x") HashIP [(L "10.0.0.1", false); (L "10.0.0.3", false)].
+Definition ex_sets : sets :=
+  [(L "other", mkSet HashIP [(L "1.1.1.1", false)]);
+   (L "GLX-ip-x", mkSet HashIP [(L "10.0.0.1", false); (L "10.0.0.2", false)])].
+Lemma c15_example_sets_l :
+  NoDup (map cs_name [ex_cset]) /\ (forall cs, In cs [ex_cset] -> set_pre cs ex_sets) /\
+  exists s', sync_sets [ex_cset] ex_sets = (s', true).
+Proof.
+  split; [repeat constructor; intros []|]. split.
+  - intros cs [E|[]]. subst cs. split.
+    + intros e o [E|[E|[]]] [E'|[E'|[]]] _; subst; reflexivity.
+    + change (slookup (cs_name ex_cset) ex_sets)
+        with (Some (mkSet HashIP [(L "10.0.0.1", false); (L "10.0.0.2", false)])).
+      split; [|split].
+      * repeat constructor; simpl; intuition discriminate.
+      * intros e o [E|[E|[]]] [E'|[E'|[]]] _; subst; reflexivity.
+      * intros e [[E|[E|[]]]|[E|[E|[]]]]; subst e; unfold key_wf; simpl; intuition discriminate.
+  - eexists. vm_compute. reflexivity.
+Qed.
+
+(** ------------------------------------------------------------------ an accepted policy batch is exact *)
+Lemma apply_deletes_some sn cs : forall t t'', apply_lines sn t (map LDelete cs) = Some t'' ->
+  forall x, tlookup x t'' = if mem x cs then None else tlookup x t.
+Proof.
+  induction cs as [|c cs IH]; intros t t'' Ha x.
+  - simpl in Ha. inversion Ha. reflexivity.
+  - cbn [map apply_lines] in Ha. destruct (apply_line sn t (LDelete c)) as [t1|] eqn:E; [|discriminate].
+    cbn [apply_line] in E. destruct (tlookup c t) as [[|r rs]|]; try discriminate.
+    destruct (is_builtin c || referenced c t); [discriminate|]. inversion E. subst t1.
+    rewrite (IH _ _ Ha x), mem_cons, tlookup_tremove.
+    destruct (mem x cs); [rewrite orb_true_r; reflexivity|]. rewrite orb_false_r. reflexivity.
+Qed.
+
+(** policy_chains_exact: whenever the batch IS accepted (no stale chain was still referenced), the table holds
+    exactly the compiled policy chains with exactly their rules, no other GLX-PLCY chain, and every other
+    chain is as before *)
+Lemma policy_chains_exact_l : forall (H : str -> str) (c : cluster) (k : kernel) (s1 : sets) (t'' : table),
+  NoDup (map (policy_chain H) (c_pols c)) ->
+  sync_sets (all_sets (compile H c)) (k_sets k) = (s1, true) ->
+  let pols := compile H c in
+  restore (set_names s1) (k_filter k) (policy_batch H pols (stale_policy_chains H pols (k_filter k))) = (t'', true) ->
+  (forall cp, In cp pols -> tlookup (policy_chain H (cp_np cp)) t'' = Some (policy_chain_rules cp)) /\
+  (forall x, has_prefix plcy_prefix x = true -> has_chain x t'' = true ->
+             In x (map (fun cp => policy_chain H (cp_np cp)) pols)) /\
+  (forall x, has_prefix plcy_prefix x = false -> tlookup x t'' = tlookup x (k_filter k)).
+Proof.
+  intros H c k s1 t'' Hnd Hs pols Hr. set (stale := stale_policy_chains H pols (k_filter k)) in *.
+  destruct (names_sync_sets _ _ _ Hs) as [_ Hn].
+  destruct (policy_head_effect H pols stale (set_names s1) (k_filter k) (compile_names_glx H c) Hn) as [t' [A [Lk P]]].
+  { intros x Hx. eapply stale_not_builtin. exact Hx. }
+  unfold restore, policy_batch in Hr. rewrite apply_lines_app, A in Hr.
+  destruct (apply_lines (set_names s1) t' (map LDelete stale)) as [t2|] eqn:Ad; [|discriminate].
+  inversion Hr. subst t2. pose proof (apply_deletes_some _ _ _ _ Ad) as Ld.
+  assert (forall x, mem x stale = true -> mem x (map (chain_of H) pols) = false /\ has_prefix plcy_prefix x = true) as Hst.
+  { intros x Hx. apply mem_In in Hx. unfold stale, stale_policy_chains in Hx. apply filter_In in Hx.
+    destruct Hx as [_ Hx]. apply andb_true_iff in Hx. destruct Hx as [H1 H2]. apply negb_true_iff in H2.
+    split; assumption. }
+  split; [|split].
+  - intros cp Hcp. rewrite Ld.
+    assert (mem (chain_of H cp) (map (chain_of H) pols) = true) as Hm by (apply mem_In; apply in_map; exact Hcp).
+    change (policy_chain H (cp_np cp)) with (chain_of H cp).
+    destruct (mem (chain_of H cp) stale) eqn:Es; [apply Hst in Es; destruct Es; congruence|].
+    rewrite Lk, mem_app, Hm. cbn [orb]. f_equal. apply appends_for_policy; [|exact Hcp].
+    unfold pols. rewrite compile_chain_names. exact Hnd.
+  - intros x Hp Hx. unfold has_chain in Hx. rewrite Ld in Hx. destruct (mem x stale) eqn:Es; [discriminate|].
+    rewrite Lk, mem_app, Es, orb_false_r in Hx.
+    change (In x (map (chain_of H) pols)). apply mem_In.
+    destruct (mem x (map (chain_of H) pols)) eqn:Em; [reflexivity|]. exfalso.
+    apply mem_false in Es. apply Es. unfold stale, stale_policy_chains. apply filter_In. split.
+    + apply has_chain_In. exact Hx.
+    + rewrite Hp. change (negb (mem x (map (chain_of H) pols)) = true). rewrite Em. reflexivity.
+  - intros x Hp. rewrite Ld.
+    destruct (mem x stale) eqn:Es; [apply Hst in Es; destruct Es; congruence|].
+    rewrite Lk, mem_app, Es, orb_false_r.
+    destruct (mem x (map (chain_of H) pols)) eqn:Em; [apply mem_chain_of_plcy in Em; congruence|reflexivity].
 Qed.
